@@ -10,6 +10,7 @@ import (
 	"encoding/json"
 	"fmt"
 	"math/rand"
+	"sort"
 	"time"
 
 	sdk "github.com/cosmos/cosmos-sdk/types"
@@ -143,7 +144,7 @@ func (g *genEnv) dumps() {
 	g.pnft.dump()
 }
 
-func genesisHistory(s *Stream, rng *rand.Rand, steps int, seen, sigs map[string]bool) {
+func genesisHistory(s *Stream, rng *rand.Rand, steps int, seen, sigs map[string]bool, bulk bool) {
 	c, err := NewChain(memDB(), tmpHome(), nil, 0, nil)
 	if err != nil {
 		panic(err)
@@ -181,6 +182,63 @@ func genesisHistory(s *Stream, rng *rand.Rand, steps int, seen, sigs map[string]
 			return pa[0]
 		}
 		return pa[rng.Intn(3)]
+	}
+	// aimed: several records of one topic with keys/values of equal length, one with an empty key and value, records in
+	// a second topic, a writer removed afterwards (an export that reuses a decoding buffer corrupts exactly these)
+	if bulk {
+		o, w1, w2 := ap.addrs[0], ap.addrs[3], ap.addrs[4]
+		g.aol.msg(&aoltypes.MsgCreateTopicRequest{TopicName: gt[0], Description: "", OwnerAddress: o})
+		g.aol.msg(&aoltypes.MsgCreateTopicRequest{TopicName: gt[1], Description: "second", OwnerAddress: o})
+		g.aol.msg(&aoltypes.MsgAddWriterRequest{TopicName: gt[0], Moniker: "m1", Description: "d", WriterAddress: w1, OwnerAddress: o})
+		g.aol.msg(&aoltypes.MsgAddWriterRequest{TopicName: gt[0], Moniker: "m2", Description: "", WriterAddress: w2, OwnerAddress: o})
+		g.aol.msg(&aoltypes.MsgAddWriterRequest{TopicName: gt[1], Moniker: "", Description: "", WriterAddress: w1, OwnerAddress: o})
+		for i := 0; i < 5; i++ {
+			ns += 1000
+			g.now(ns)
+			g.aol.msg(&aoltypes.MsgAddRecordRequest{TopicName: gt[0], Key: []byte(fmt.Sprintf("patient-%04d", i)), Value: []byte(fmt.Sprintf("value-%05d", 7*i)), WriterAddress: []string{w1, w2}[i%2], OwnerAddress: o})
+		}
+		g.aol.msg(&aoltypes.MsgAddRecordRequest{TopicName: gt[0], Key: nil, Value: nil, WriterAddress: w1, OwnerAddress: o})
+		g.aol.msg(&aoltypes.MsgAddRecordRequest{TopicName: gt[1], Key: []byte("k"), Value: []byte("a-longer-value-than-the-others"), WriterAddress: w1, OwnerAddress: o})
+		g.aol.msg(&aoltypes.MsgAddRecordRequest{TopicName: gt[1], Key: []byte("kk"), Value: []byte("v"), WriterAddress: w1, OwnerAddress: o})
+		g.aol.msg(&aoltypes.MsgDeleteWriterRequest{TopicName: gt[0], WriterAddress: w2, OwnerAddress: o})
+		// more than a hundred DIDs (a default page is 100 entries); the last ones in key order include a tombstone
+		var bulkIdents []*didIdent
+		for i := 0; i < 104; i++ {
+			k := newDidKey(fmt.Sprintf("bulk-%d", i))
+			bulkIdents = append(bulkIdents, &didIdent{did: didtypes.NewDID(k.pub), keys: []*didKey{k}})
+		}
+		sort.Slice(bulkIdents, func(i, j int) bool { return bulkIdents[i].did < bulkIdents[j].did })
+		for i, it := range bulkIdents {
+			vmID := it.did + "#key1"
+			doc := &didtypes.DIDDocument{Id: it.did,
+				VerificationMethods: []*didtypes.VerificationMethod{{Id: vmID, Type: didtypes.ES256K_2019, Controller: it.did, PublicKeyBase58: it.keys[0].b58}},
+				Authentications:     []didtypes.VerificationRelationship{didtypes.NewVerificationRelationship(vmID)}}
+			sig := g.did.sign(it.keys[0], doc, 0)
+			if g.did.create(&didtypes.MsgCreateDIDRequest{Did: it.did, Document: doc, VerificationMethodId: vmID, Signature: sig, FromAddress: relayers[0]}) && i >= 101 {
+				dsig := g.did.sign(it.keys[0], &didtypes.DIDDocument{Id: it.did}, 0)
+				g.did.deactivate(&didtypes.MsgDeactivateDIDRequest{Did: it.did, VerificationMethodId: vmID, Signature: dsig, FromAddress: relayers[1]})
+			}
+		}
+		// more than a hundred denoms, the late ones with tokens and a hand-over
+		for i := 0; i < 104; i++ {
+			id := fmt.Sprintf("bulk%03d", i)
+			g.pnft.msg(&pnfttypes.MsgCreateDenomRequest{Id: id, Name: "n", Symbol: "s", Creator: pa[0]})
+			if i >= 99 {
+				g.pnft.msg(&pnfttypes.MsgMintPNFTRequest{DenomId: id, Id: "t1", Name: "t", Creator: pa[0]})
+			}
+		}
+		g.pnft.msg(&pnfttypes.MsgTransferPNFTRequest{DenomId: "bulk102", Id: "t1", Sender: pa[0], Receiver: pa[1]})
+		g.pnft.msg(&pnfttypes.MsgTransferDenomRequest{Id: "bulk103", Sender: pa[0], Receiver: pa[2]})
+		g.roundTrip(ns)
+		g.dumps()
+		o0 := ap.addrs[0]
+		for off := uint64(0); off < 8; off++ {
+			g.aol.qRecord(o0, gt[0], off)
+			g.aol.qRecord(o0, gt[1], off)
+		}
+		for _, it := range bulkIdents[98:] {
+			g.did.query(it.did)
+		}
 	}
 	for i := 0; i < steps; i++ {
 		if rng.Intn(6) == 0 {
@@ -311,7 +369,7 @@ func init() {
 		monUTF8(s)
 		seen, sigs := map[string]bool{}, map[string]bool{}
 		for h := 0; h < n; h++ {
-			genesisHistory(s, rng, 20+rng.Intn(40), seen, sigs)
+			genesisHistory(s, rng, 20+rng.Intn(40), seen, sigs, h == 0)
 		}
 	}
 }
